@@ -119,6 +119,35 @@ pub fn handle(op: &str, req: &Value) -> Option<Value> {
             json!({"before": before, "after": snapshot(&node), "prev_for_follower_before": p0, "prev_for_follower_after": p1,
                    "replication_before": rs0, "replication_after": rs1})
         },
+        "raft_leader_commit" => {
+            // leader = with_state + become_leader; then current-term success responses set match_index as in the witness
+            let mut r2 = req.clone();
+            r2["pre"]["commit_index"] = json!(0);
+            let peers: Vec<String> = req["peers"].as_array().map(|a| a.iter().map(sid).collect()).unwrap_or_default();
+            r2["peers"] = json!(peers);
+            let node = build(&r2);
+            node.become_leader();
+            let term = node.current_term();
+            let mut steps = vec![];
+            let mut send = |from: &String, t: u64, success: bool, mi: u64| {
+                let msg = AppendEntriesResponse { term: t, success, follower_id: from.clone(), match_index: mi, used_fast_path: false };
+                let _ = node.handle_message(from, &Message::AppendEntriesResponse(msg));
+                let reps: Vec<Option<(u64, u64)>> = peers.iter().map(|p| node.verif_replication_state(p)).collect();
+                steps.push(json!({"from": from, "commit_index": node.commit_index(), "replication": reps, "role": role(node.state())}));
+            };
+            for (i, m) in req["match_index"].as_array().into_iter().flatten().enumerate() {
+                let mi = m.as_u64().unwrap_or(0);
+                if mi > 0 && i < peers.len() {
+                    send(&peers[i], term, true, mi);
+                }
+            }
+            if let Some(aer) = req.get("aer") {
+                if !aer.is_null() {
+                    send(&sid(&aer["from"]), aer["term"].as_u64().unwrap_or(0), aer["success"].as_bool().unwrap_or(false), aer["match_index"].as_u64().unwrap_or(0));
+                }
+            }
+            json!({"steps": steps, "final": snapshot(&node), "peers": peers})
+        },
         _ => return None,
     })
 }
